@@ -688,6 +688,9 @@ class Interp:
             n = VSeq(v.ek, z3.Int(fresh_name(base + '.len')), z3.Array(fresh_name(base + '.arr'), z3.IntSort(), sort_of(v.ek)),
                      init=None if v.init is None else z3.Array(fresh_name(base + '.init'), z3.IntSort(), z3.BoolSort()),
                      flavor=v.flavor, dtype=v.dtype)
+            if v.flavor == 'series':
+                # whether this function owns the object bound to the name is part of the (havocked) state: state it in the invariant
+                n.owned = z3.Bool(fresh_name(base + '.owned'))
             self.wellformed(st, n)
             return n
         if isinstance(v, VOpt):
@@ -1132,6 +1135,11 @@ class Interp:
         c = self.lookup_contract(e.id)
         if c is not None:
             return VFunc(e.id, lambda I, st_, args, kwargs, c=c: I.call_contract(c, args, kwargs, st_))
+        if '.' in self.cur['qualname']:
+            # a sibling nested def of the enclosing function, under its own contract (captured by the closure)
+            sib = self.registry.get(self.cur['qualname'].rsplit('.', 1)[0] + '.' + e.id)
+            if sib is not None and sib['module'] == self.cur['module'] and self.is_sibling_def(sib):
+                return VFunc(e.id, lambda I, st_, args, kwargs, c=sib: I.call_contract(c, args, kwargs, st_))
         ctor = (self.cur.get('constructors') or {}).get(e.id)
         if ctor is not None:
             return VFunc(e.id, lambda I, st_, args, kwargs, ctor=ctor, nm=e.id: VObj(nm, dict(zip(ctor, args), **kwargs)))
@@ -1141,6 +1149,13 @@ class Interp:
         if self.spec_mode and e.id in self.speclib.SPEC_FUNCS:
             return VFunc(e.id, self.speclib.SPEC_FUNCS[e.id])
         raise EngineError(f'unbound name `{e.id}` in {self.cur["qualname"]}')
+
+    def is_sibling_def(self, sib):
+        try:
+            frontend.load_function(sib['module'], sib['qualname'])
+            return True
+        except Exception:
+            return False
 
     def module_constant(self, name):
         vals = frontend.module_level_assignments(self.cur['module'])
@@ -1255,6 +1270,8 @@ class Interp:
             t = z3.simplify(v.t)
             if z3.is_int_value(t):
                 return VStr(str(t.as_long()))
+            if sym.STRING_MODE[0] == 'opaque':
+                return VStr(sym.PSTR_OF_INT(v.t))
             return VStr(z3.If(v.t >= 0, z3.IntToStr(v.t), z3.Concat(z3.StringVal('-'), z3.IntToStr(-v.t))))
         if isinstance(v, VReal):
             t = z3.simplify(v.t)
@@ -1400,6 +1417,8 @@ class Interp:
             return VStr(sym.PCONCAT(a.t, b.t) if a.opaque else z3.Concat(a.t, b.t))
         if isinstance(a, VStr) and isinstance(op, ast.Mod):
             raise EngineError('% string formatting')
+        if isinstance(a, VSeq) and a.flavor == 'series' or isinstance(b, VSeq) and b.flavor == 'series':
+            return self.stubs.series_binop(self, st, op, a, b, inplace, txt)
         if isinstance(a, VSeq) and a.flavor == 'array' or isinstance(b, VSeq) and b.flavor == 'array':
             return self.array_binop(op, a, b, st, txt)
         if isinstance(a, VSeq) and isinstance(b, VSeq) and isinstance(op, ast.Add):
